@@ -178,7 +178,10 @@ class _Reader:
 
     # ------------------------------------------------------------ digests / vectors
     def _bits(self, cur, n):
-        return unpack_bits(cur.take((n + 7) // 8), n)
+        raw = cur.take((n + 7) // 8)
+        if n % 8 and raw[-1] & ((1 << (8 - n % 8)) - 1):
+            self.out.notes.append("bit vector with nonzero padding bits")
+        return unpack_bits(raw, n)
 
     def _defined(self, cur, n, what):
         alldef = cur.byte()
@@ -392,7 +395,9 @@ class _Reader:
                 buf, trailing = coders.decode(coder["method"], props, buf, f["unpacksizes"][c], self.password, padded)
             except FormatError as e:
                 self.problem("%s: %s" % (what, e.reason))
-                return b""
+                if e.partial is None or len(e.partial) != f["unpacksizes"][c]:
+                    return b""
+                buf, trailing = e.partial, 0
             is_aes = coder["method"] == "06f10701"
             if trailing and not is_aes and not (padded and trailing < 16):
                 self.problem("%s: %d unused bytes at end of coder input" % (what, trailing))
@@ -563,6 +568,8 @@ class _Reader:
                 m["data"] = b"" if self.decode else None
             else:
                 m.update(folder=f["folder"], size=f["size"], crc=f["crc"], data=datas[k])
+                if f["size"] == 0:
+                    self.out.notes.append("%r: zero-length substream instead of EmptyStream/EmptyFile" % f["name"])
                 k += 1
                 if kind == "dir":
                     self.problem("directory %r has a data stream" % f["name"])
